@@ -1,10 +1,16 @@
 (* Extraction of the executable model to OCaml.  Only ExtrOcamlBasic is used:
    numbers stay Coq's positive/N/Z datatypes. *)
 From Coq Require Import ZArith List Extraction ExtrOcamlBasic.
-From IVG Require Import SF NumCodec.
+From IVG Require Import SF NumCodec Color Calls Decoder Encoder.
 Extraction Language OCaml.
 Extraction "model.ml"
   SF.fadd SF.fsub SF.fmul SF.fdiv SF.fsqrt SF.fcompare SF.of_Z SF.convert SF.ffloor SF.fceil SF.ftrunc
   NumCodec.enc_natural NumCodec.dec_natural NumCodec.enc_real NumCodec.enc_real4 NumCodec.enc_coordinate
   NumCodec.enc_zero_to_one NumCodec.enc_angle NumCodec.dec_real NumCodec.dec_coordinate
-  NumCodec.dec_zero_to_one NumCodec.quantize NumCodec.nreg_choice.
+  NumCodec.dec_zero_to_one NumCodec.quantize NumCodec.nreg_choice
+  Color.decode_color1 Color.encode1 Color.encode2 Color.encode3direct Color.encode4 Color.encode3indirect
+  Color.enc_color Color.dec_color_form Color.resolve Color.color_rgba Color.encode_gradient Color.decode_gradient
+  Color.valid_premul Color.valid_gradient
+  Calls.default_viewbox Calls.default_palette
+  Decoder.decode_items Decoder.decode_calls Decoder.decode_viewbox Decoder.disassemble Decoder.calls_of
+  Encoder.enc_zero Encoder.enc_run Encoder.enc_act Encoder.enc_bytes.
